@@ -324,8 +324,12 @@ cdef class StratifiedSFCNNPS(NNPS):
 
     @cython.cdivision(True)
     cdef inline int _get_level(self, double h) noexcept nogil:
-        return self.num_levels - <int> min(self.num_levels,
-                ceil(log2((self.cell_size + EPS)/ self.radius_scale / h)))
+        # h equal to the largest smoothing length belongs to the top level:
+        # for cell sizes above ~1e3 the absolute EPS is absorbed, the
+        # logarithm is exactly 0 and the level would be num_levels (one past
+        # the last level)
+        return self.num_levels - <int> max(1, min(self.num_levels,
+                ceil(log2((self.cell_size + EPS)/ self.radius_scale / h))))
 
     @cython.cdivision(True)
     cdef inline int _get_H(self, double h_q, double h_j):
